@@ -651,6 +651,11 @@ func runFrame(fr *frame) {
 		}
 		if fr.i.es.panicStack == "" {
 			fr.i.es.panicStack = targetStack(fr)
+			if _, isRt := p.(runtime.Error); isRt && os.Getenv("VERIF_DEBUG_PANIC") != "" {
+				buf := make([]byte, 1<<14)
+				n := runtime.Stack(buf, false)
+				fr.i.es.panicStack += "\nGO STACK AT ORIGIN:\n" + string(buf[:n])
+			}
 		}
 		fr.panicking = true
 		fr.panic = p
